@@ -534,7 +534,7 @@ fn gen_case(rng: &mut Rng, t: &mut Trace, id: String) {
     let mut g = GenState { map, n: 0, w_live: vec![], r_live: vec![], safe: vec![], risky: cap < hdr, hdr };
     let len = rng.range(4, 40);
     // A well-behaved remote most of the time; a misbehaving one (any notification at any time) otherwise.
-    let polite = rng.chance(3, 4);
+    let polite = rng.chance(5, 6);
     let mut linked = false;
     let rt = tokio::runtime::Builder::new_current_thread().enable_time().start_paused(true).build().expect("runtime");
     let res = std::panic::catch_unwind(std::panic::AssertUnwindSafe(|| {
@@ -627,7 +627,8 @@ fn next_op(rng: &mut Rng, g: &mut GenState, polite: bool, linked: &mut bool) -> 
             g.w_live.push(true);
             g.r_live.push(true);
             g.safe.push(!g.risky);
-            let sync = if rng.chance(7, 10) { 1 } else { 0 };
+            // a consumer without SYNC attaching after `linked` runs into F8 at once: keep those rarer
+            let sync = if *linked { if rng.chance(9, 10) { 1 } else { 0 } } else if rng.chance(6, 10) { 1 } else { 0 };
             return format!("attach {} {}", sync, rng.below(2));
         } else if r < 40 {
             // remote notification
@@ -648,6 +649,7 @@ fn next_op(rng: &mut Rng, g: &mut GenState, polite: bool, linked: &mut bool) -> 
                 }
             } else {
                 if q < 15 {
+                    *linked = true;
                     return "remote linked".into();
                 }
                 if q < 35 {
